@@ -1,5 +1,6 @@
 import PPLV.Value.Model
 import PPLV.Value.Judge
+import Driver.C13Move
 
 /-!
 # `pplv_c13` — replays a pool journal of `harness/c13_values.cc` on the value specification
@@ -412,6 +413,7 @@ partial def loop (h : IO.FS.Stream) (ln : Nat) : M Unit := do
   loop h (ln + 1)
 
 def main (args : List String) : IO UInt32 := do
+  if args.contains "--move" then return (← C13Move.main)
   let maxSize := match args with
     | ["--max-size", k] => k.toNat?.getD 400
     | _ => 400
